@@ -15,6 +15,7 @@ import sys, json, os, importlib.util, traceback
 
 
 INTERVALS = None      # when a list: (start, end) of every leaf read of the generic code path
+MOVES = []            # cursor positions set by positioning pseudo-fields while INTERVALS is recording
 
 
 def install_recorder():
@@ -32,6 +33,16 @@ def install_recorder():
             return r
         w.__name__ = name
         setattr(cls, name, w)
+    # a positioning pseudo-field consumes nothing but moves the cursor: the position it sets belongs to the region traversed
+    from bisturi import structural_fields as SF
+    orig_move = SF.Move.unpack
+
+    def move_unpack(self, pkt, raw, offset=0, **k):
+        r = orig_move(self, pkt, raw, offset, **k)
+        if INTERVALS is not None:
+            MOVES.append(r)
+        return r
+    SF.Move.unpack = move_unpack
     for n in ('_unpack_fixed_and_primitive_size', '_unpack_fixed_size'):
         wrap(F.Int, n)
     for n in ('_unpack_fixed_size', '_unpack_variable_size_field', '_unpack_variable_size_callable',
@@ -191,15 +202,17 @@ def run_case(c, ns):
             global INTERVALS
             p = cls(_initialize_fields=False)
             INTERVALS = [] if c.get("record") else None
+            del MOVES[:]
             try:
                 end = p.unpack_impl(bytes.fromhex(c["raw"]), c.get("offset", 0), root=p)
             finally:
                 iv, INTERVALS = INTERVALS, None
+            mv = list(MOVES)
             if iv is not None:
                 try:
-                    return {"ok": canon(p), "end": end, "intervals": iv, "packed": {"ok": p.pack().hex()}}
+                    return {"ok": canon(p), "end": end, "intervals": iv, "moves": mv, "packed": {"ok": p.pack().hex()}}
                 except Exception as e:
-                    return {"ok": canon(p), "end": end, "intervals": iv, "packed": outcome_of_exception(e)}
+                    return {"ok": canon(p), "end": end, "intervals": iv, "moves": mv, "packed": outcome_of_exception(e)}
             try:
                 return {"ok": canon(p), "end": end, "packed": {"ok": p.pack().hex()}}
             except Exception as e:
